@@ -66,7 +66,8 @@ class MeshTet1(MeshSimplex, Mesh3D):
                 ix = np.arange(nelems, dtype=np.int32)
 
             X = mapping.invF(np.array([x, y, z])[:, None], ix)
-            eps = np.finfo(X.dtype).eps
+            # allow for the round-off of the inverse mapping
+            eps = 1e3 * np.finfo(X.dtype).eps
             inside = ((X[0] >= -eps) *
                       (X[1] >= -eps) *
                       (X[2] >= -eps) *
